@@ -60,7 +60,7 @@ PROPS = {
     ),
     "C05": P(
         technique="Lean 4 proof over the bufio model (all cuts, all chunkings) + fault enumeration by differential correspondence",
-        level_text="Proof at the message level (cut_never_complete): the transport ends — EOF, error or timeout, alone or together with the last bytes — at ANY byte offset strictly inside a conformant message of any fragmentation with interleaved controls, for any chunking, buffer size and read size: the message is never reported complete; NextReader fails or the message reader fails with a non-EOF error after delivering only a prefix of the payload (on reachable states; the 1000th-call panic is explicit otherwise); a message that did arrive whole is reported complete and byte-identical; cut_never_complete_any_limit: the same whatever read limit is in force (the failure may then be ErrReadLimit, never completion); the same for COMPRESSED messages through the model of flateReadWrapper (compressed_cut_never_complete: for every behaviour of compress/flate — read requests of any sizes, the end of the deflate stream reported however early — and every drain size, a compressed message whose last frame has not arrived is not reported complete; finding F10 as a theorem; compressed_whole_complete for the converse). Proof at the source level: a header or skipped remainder that did not fully arrive is an error (EOF mapped to 1006), never a short result; the terminal error repeats. Tie/fault enumeration: random streams cut at random and boundary offsets with EOF / error / timeout, error alone or together with the last bytes, all chunkings, explicit read sizes; model predicts every result incl. bufio pass-through effects; oracle: a message reported complete lies wholly before the cut and is byte-identical; errors are permanent; zcut: compressed messages of every deflate shape, cut anywhere, with the decompressor's read requests observed through a tap and replayed by the model (zr lines).",
+        level_text="Proof at the message level (cut_never_complete): the transport ends — EOF, error or timeout, alone or together with the last bytes — at ANY byte offset strictly inside a conformant message of any fragmentation with interleaved controls, for any chunking, buffer size and read size: the message is never reported complete; NextReader fails or the message reader fails with a non-EOF error after delivering only a prefix of the payload (on reachable states; the 1000th-call panic is explicit otherwise); a message that did arrive whole is reported complete and byte-identical; cut_never_complete_any_limit: the same whatever read limit is in force (the failure may then be ErrReadLimit, never completion); for EVERY read program (cut_program_never_complete_fits_partial; partial: whole messages within the limit, terminal condition not glued to the last whole message) the messages the application's trace reports as complete are a sublist of the messages that arrived whole, in order; the same for COMPRESSED messages through the model of flateReadWrapper (compressed_cut_never_complete: for every behaviour of compress/flate — read requests of any sizes, the end of the deflate stream reported however early — and every drain size, a compressed message whose last frame has not arrived is not reported complete; finding F10 as a theorem; compressed_whole_complete for the converse). Proof at the source level: a header or skipped remainder that did not fully arrive is an error (EOF mapped to 1006), never a short result; the terminal error repeats. Tie/fault enumeration: random streams cut at random and boundary offsets with EOF / error / timeout, error alone or together with the last bytes, all chunkings, explicit read sizes; model predicts every result incl. bufio pass-through effects; oracle: a message reported complete lies wholly before the cut and is byte-identical; errors are permanent; zcut: compressed messages of every deflate shape, cut anywhere, with the decompressor's read requests observed through a tap and replayed by the model (zr lines).",
         level_note="Finding F1 (EOF together with the last bytes of a non-final frame made a truncated message look complete) was repaired (fix: f91fac9); the theorem is about the repaired reader and the rcut stream is its regression sentinel. Compressed messages of every deflate shape (sync-flushed, several blocks, BFINAL) cut at any offset by every fault kind are judged by the independent oracle of stream zcut with the real compress/flate, which found F10 (repaired, fix: 9fddae9); since then the wrapper around the decompressor is modelled (zReadToEnd) with compress/flate's read requests, its verdict and the drain size as environment answers observed through the hook VerifTapDecompression; inflate itself stays environment.",
         lean=["WS.Props.C05"],
         streams=[("rcut", 800, 20000), ("zcut", 600, 20000)],
